@@ -380,6 +380,45 @@ func runBuilder(c bCase) harness.Result {
 			o = append(o, obs{int(v.Field.Address), got, dev.Coil(int(c.FC)-1, int(v.Field.Address)), revBit(payload, i)})
 		}
 	}
+	// lenient extraction with a field outside the response window listed FIRST (a hand-built or extended field list): that field
+	// fails, every other coil is still looked up on its own
+	for _, r := range reqs {
+		reply := device.New(c.Seed).Answer(c.Framing, r.Bytes())
+		resp, err := parseResp(c.Framing, reply)
+		if err != nil {
+			continue
+		}
+		payload := dataOf(resp)
+		outside := int(r.StartAddress) + 8*len(payload) + 3
+		if r.StartAddress > 0 && len(r.Fields)%2 == 0 {
+			outside = int(r.StartAddress) - 1
+		}
+		if outside > 65535 || len(r.Fields) == 0 {
+			continue
+		}
+		r3 := r
+		of := r.Fields[0]
+		of.Name, of.Address = "outside", uint16(outside)
+		r3.Fields = append([]modbus.Field{of}, r.Fields...)
+		fv, _ := r3.ExtractFields(resp, true)
+		if len(fv) != len(r3.Fields) {
+			return harness.Fail("lenient extraction with an out-of-window field first returned %d values for %d fields", len(fv), len(r3.Fields))
+		}
+		for k, v := range fv {
+			if k == 0 {
+				if v.Error == nil {
+					return harness.Fail("coil field at %d lies outside the response window starting at %d (%d bytes) but was extracted as %v", outside, r.StartAddress, len(payload), v.Value)
+				}
+				continue
+			}
+			got, ok := v.Value.(bool)
+			if !ok || v.Error != nil {
+				return harness.Fail("lenient extraction: field %s at %d is inside the response window but is reported as %v with error %v after an earlier field (at %d, outside the window) failed", v.Field.Name, v.Field.Address, v.Value, v.Error, outside)
+			}
+			i := int(v.Field.Address) - int(r.StartAddress)
+			o = append(o, obs{int(v.Field.Address), got, dev.Coil(int(c.FC)-1, int(v.Field.Address)), revBit(payload, i)})
+		}
+	}
 	for i := range c.Addrs {
 		if seen[fmt.Sprintf("c%d", i)] != 1 {
 			return harness.Fail("field c%d reported %d times", i, seen[fmt.Sprintf("c%d", i)])
